@@ -21,6 +21,7 @@ THEOREMS = [
     "Ural.Props.C05.normalize_path_deletion",
     "Ural.Props.C05.normalize_path_once",
     "Ural.Props.C05.normalize_path_sublist",
+    "Ural.Props.C05.normalize_query_filter",
     "Ural.Props.C05.normalize_query_sublist",
     "Ural.Props.C05.normalize_query_subsequence",
     "Ural.Props.C05.option_sort_query_off",
@@ -35,7 +36,6 @@ THEOREMS = [
     "Ural.Props.C05.option_infer_redirection_off",
     "Ural.Props.C05.normalize_unparseable_identity",
     "Ural.Props.C05.normalize_parseable",
-    "Ural.Props.C05.normalize_total",
     "Ural.Props.C05.normalize_platform_partial",
     "Ural.Props.C05.fullPlatform_false",
     "Ural.Normalize.subdomainSub_labels",
@@ -54,10 +54,29 @@ THEOREMS += [
     "Ural.Props.C05.normalize_string_split",
     "Ural.Props.C05.normalize_unparseable_string",
     "Ural.Props.C05.normalize_bad_port_string",
-    "Ural.Props.C05.normalize_total_string",
     "Ural.Props.C05.normalize_only_deletes_string",
 ]
-EXTRA_IMPORTS = ["UralModel.Props.C05Whole"]
+THEOREMS += [
+    # the exception channel made explicit (Model/NormalizeUrlExcept.lean, Props/C05Total.lean): replaces the
+    # content-free `∃ s, normalizeUrl … = s`
+    "Ural.Props.C05.parseE_only_valueError",
+    "Ural.Props.C05.normalizeUrlExcept_eq",
+    "Ural.Props.C05.normalize_never_raises",
+    "Ural.Props.C05.normalize_no_error_value",
+    "Ural.Props.C05.normalize_redirection_hops",
+    # Props/C05More.lean: strip_trailing_slash off exactly (+ the root rule), the precise chains on strings,
+    # the documented families of irrelevant keys independently of should_strip_query_item
+    "Ural.Props.C05.option_strip_trailing_slash_off_exact",
+    "Ural.Props.C05.trailing_slash_kept",
+    "Ural.Props.C05.normalize_only_deletes_string_chain",
+    "Ural.Props.C05.strips_campaign_key",
+    "Ural.Props.C05.strips_amp_key",
+    "Ural.Props.C05.keeps_amp_key_off",
+    "Ural.Props.C05.strips_tracking_key",
+    "Ural.Props.C05.keeps_content_key",
+    "Ural.Props.C05.amp_off_strips_less",
+]
+EXTRA_IMPORTS = ["UralModel.Props.C05Whole", "UralModel.Props.C05Total", "UralModel.Props.C05More"]
 TABLE_OBLIGATIONS = [
     "Ural.Props.C05.irrelevantSubdomain_pattern",
     "Ural.Props.C05.irrelevantSubdomainAmp_pattern",
@@ -70,10 +89,18 @@ TABLE_OBLIGATIONS = [
     "Ural.Props.C05.mistakes_probes",
     "Ural.Props.C05.sLambda_probes",
     "Ural.Props.C05.queryCombosCallable_eq",
+    # Props/C05More.lean: the hand-written documented key families vs the regenerated patterns / combo tables
+    "Ural.Props.C05.irrelevant_query_frames",
+    "Ural.Props.C05.irrelevant_families_in_pattern",
+    "Ural.Props.C05.irrelevant_keys_in_pattern",
+    "Ural.Props.C05.content_keys_not_in_tables",
+    "Ural.Props.C05.irrelevant_query_alts_subset",
 ]
 RULE = (
     "A case is (URL, option setting) or one call of a small function of the module. URLs: the regression "
-    "corpus (minimal inputs of D16, D18, D20, D21, D23 and of the defects fixed since), unparseable and "
+    "corpus (minimal inputs of D16, D18, D20, D21, D23 and of the defects fixed since; deep / very long inputs: 150-1500 nested "
+    "redirections - the 1200-hop RecursionError witness fixed by /repo 0c9bfa3 -, 6-100 KB paths / queries / hosts / escapes / fragments; the "
+    "thousand-hop ones through the real code and the oracle only), unparseable and "
     "empty-ish strings, redirect-carrying and facebook/youtube URLs, each with the defaults and with every "
     "option switched alone; then the full grid of the ten documented options (2^9 x 3) x quoted on a sample "
     "of bases; then seeded random URLs (hosts built from irrelevant / look-alike / language labels, index "
@@ -98,6 +125,8 @@ TRUSTED = [
     "str.lower / str.strip / \\d on non-ASCII characters outside the model alphabet (DESIGN §4) are not modelled",
 ]
 ASSUMPTIONS = [
+    "Reading of 'switching strip_trailing_slash off preserves the trailing slash exactly' — the ROOT RULE is outside it: the resolved path of the root is the empty path (normpath('/') == ''), and a path that is exactly '/' after the AMP / index steps becomes empty when the result has neither query nor fragment (normalize_url.py:390-392, 'Always dropping trailing slash with empty query & fragment'), whatever strip_trailing_slash: normalize_url('http://a.com/', strip_trailing_slash=False) == normalize_url('http://a.com//', ...) == normalize_url('http://a.com/index.html', ...) == 'a.com'. The oracle accepts '/' -> '' unconditionally (_path_candidates); for every other path it demands, with the option off, that no trailing slash is removed (theorems option_strip_trailing_slash_off_exact, trailing_slash_kept). The index page goes WITH the slash before it and an AMP marker with its optional slash after it ('/x/index.html' -> '/x', '/x/amp/' -> '/x/' with the option off too): that is the strip_index / normalize_amp clause, not a trailing slash of the input",
+    "'irrelevant item' = what should_strip_query_item says on the module's tables (the oracle reads the same tables); independently of it the theorems strips_campaign_key / strips_tracking_key / strips_amp_key / keeps_content_key state what happens to the documented families (utm_* / mtm_* / at_*, click and session ids, amp / amp_*; id, q, p, page, v, t ... kept) — hand-written lists tied to the regenerated patterns by table obligations. No converse beyond the content keys is claimed: the tables are the only documentation of the other keys",
     "platform_aware=True: the deletion-only clauses are claimed (theorem normalize_platform_partial, oracle) only where the facebook/youtube branch leaves the URL alone; where it fires only totality and correspondence are checked",
     "paths of URLs without authority that do not start with '/' (mailto:x, custom:a/b) are outside the path clause of the oracle",
 ]
@@ -110,8 +139,18 @@ UNPROVED = (
     "the pieces of the string (normalize_string_split), hence host / port / path / query are deletions of the pieces "
     "(normalize_only_deletes_string); an unparseable string is returned unchanged (normalize_unparseable_string: every string). "
     "Outside the class (relative paths, brackets in the userinfo) and for the real parser: correspondence (norm_parts with the shipped "
-    "Parsed, normalize_whole with the modelled parser) + oracle. Totality is by the model's "
-    "type (no error value); that the implementation never raises is checked by correspondence and the oracle."
+    "Parsed, normalize_whole with the modelled parser) + oracle. 'Instead of raising': normalize_never_raises / "
+    "normalize_no_error_value are about normalizeUrlExcept (Model/NormalizeUrlExcept.lean), the model with every raise site of "
+    "normalize_url as an Except value (urlsplit, .port: ValueError; the try/except ValueError an explicit handler that lets any other "
+    "exception through; infer_redirection a loop of at most len(url) hops, normalize_redirection_hops) - the result is .ok, a string "
+    "under unsplit=True, the 5-tuple or the argument itself under unsplit=False (parseE_only_valueError is what makes the handler "
+    "sufficient). NOT proved: that CPython's urlsplit / .port raise nothing but ValueError, that the idna codec raises nothing but "
+    "UnicodeError, that the interpreter's stack suffices (the model has no stack; before /repo 0c9bfa3 normalize_url raised "
+    "RecursionError on 1200 nested redirections): the oracle's first demand on every case is 'no exception', and the corpus holds 60 / 150 / "
+    "300 / 600 / 1200 / 1500-hop inputs and 3-100 KB paths, queries, hosts, escapes, fragments (DEEP, DEEP_ORACLE_ONLY). The dropped query "
+    "items are characterised by should_strip_query_item itself (dropsItem); the documented families are anchored independently "
+    "(strips_campaign_key, strips_tracking_key, strips_amp_key, keeps_content_key, amp_off_strips_less - the latter for keys outside "
+    "AMP_QUERY_COMBOS, where it really fails: witness in Props/C05More.lean)."
 )
 
 # minimal inputs of the §7 defects of this property (D16, D18, D20, D21, D23)
@@ -125,6 +164,29 @@ CORPUS = [
     "\x00http://a.com/x?redirect=/z", " url=http://b.com/x", "http://x.cdn.ampproject.org/c/ ",  # FX-C04-dcfec1d
     "http://a.com:443/x", "https://a.com:80/x", "http://a.com:0/",  # D22 reading
     "http://a.com/?r%65f=fb", "http://a.com/?x=%C3%A9&é=1", "http://a.com/a/%2E%2E/b", "http://a.com/%41",  # D17, D8, D52
+]
+
+
+# deep nesting and very long inputs (audit finding: the former totality theorems were content-free while
+# normalize_url('http://a.com/?url=' * 1200 + 'http://b.com/') raised RecursionError — infer_redirection recursed one
+# frame per hop; /repo 0c9bfa3 made it a loop).  The model has no stack: these inputs are what makes the oracle
+# ("no exception") and the correspondence explore it.  DEEP: model + real code + oracle, with infer_redirection on and
+# off; DEEP_ORACLE_ONLY: real code + oracle only (the model driver follows a hop in time linear in the URL and needs
+# minutes for a thousand hops, seconds for 150 — C15's corpus holds the 150-hop inputs for the model of infer_redirection).
+DEEP = [
+    "http://a.com/?url=" * 60 + "http://b.com/",
+    "https://x.cdn.ampproject.org/c/s/" * 300 + "b.com/p",
+    "http://a.com/" + "a/" * 20000,
+    "http://a.com/?" + "&".join("k%d=v" % i for i in range(400)),
+    "http://" + "a." * 3000 + "com/",
+    "http://a.com/" + "%41" * 10000,
+    "http://a.com/#" + "x" * 100000,
+]
+DEEP_ORACLE_ONLY = [
+    "http://a.com/?url=" * 150 + "http://b.com/",
+    "http://a.com/?url=" * 1200 + "http://b.com/",  # the RecursionError witness fixed by /repo 0c9bfa3
+    "http://a.com/?url=" * 1500 + "http://www.b.com/x/index.html?utm_source=1",
+    "a.com/?redirect=" + "http://a.com/?next=" * 600 + "/z",  # absolute hops, then a relative one (urljoin)
 ]
 
 
@@ -176,6 +238,16 @@ def cases(rng, tier):
     for u in CORPUS + nc.UNPARSEABLE + nc.EMPTYISH + nc.REDIRECTS + nc.PLATFORM_URLS:
         for o in nc.one_off_grid():
             yield _case(url=u, opts=o)
+    # deep / very long inputs: costly cases, spread over the stream below so that they do not end up in one work chunk
+    deep = []
+    for u in DEEP:
+        for o in ({}, {"infer_redirection": False}, {"sort_query": False, "strip_trailing_slash": False}):
+            deep.append(_case(url=u, opts=o))
+    for u in DEEP_ORACLE_ONLY:
+        for o in ({}, {"strip_protocol": False, "strip_index": False}):
+            c = _case(url=u, opts=o)
+            c["oracle_only"] = True
+            deep.append(c)
     for c in fn_cases(tier):
         yield c
     # the full 2^9 x 3 x quoted grid on a sample of bases
@@ -190,10 +262,15 @@ def cases(rng, tier):
     # pairwise covering array on the rest
     pw = nc.pairwise_grid()
     n = 900 if tier == "quick" else 20000
-    for _ in range(n):
+    every = max(1, n // (len(deep) + 1))
+    for i in range(n):
         u = nc.random_url(rng)
         for o in pw:
             yield _case(url=u, opts=o)
+        if deep and i % every == every - 1:
+            yield deep.pop()
+    for c in deep:
+        yield c
     for p in urlgen.structure_sweep():
         yield _case(url=urlgen.url_of(p), opts=rng.choice(pw))
 
@@ -205,6 +282,8 @@ def _url(case):
 def ops(case):
     if case["kind"] == "fn":
         return [case["op"]]
+    if case.get("oracle_only"):
+        return []
     # component-level lines (real parser's Parsed shipped), then the whole function on the string
     return nc.ops(_url(case), case["opts"]) + nw.norm_ops(_url(case), case["opts"])
 
@@ -212,6 +291,8 @@ def ops(case):
 def impl(case):
     if case["kind"] == "fn":
         return [lib.guarded(nc.fn_impl, case["op"])]
+    if case.get("oracle_only"):
+        return []
     return nc.impl(_url(case), case["opts"]) + nw.norm_impl(_url(case), case["opts"])
 
 
@@ -540,6 +621,8 @@ def classify(case):
     url = _url(case)
     o = nc.full_opts(case["opts"])
     labs = ["url", nw.label(url, o)]
+    if len(url) > 2000:
+        labs.append("deep-or-long:oracle-only" if case.get("oracle_only") else "deep-or-long")
     for k in nc.ALL_OPTS:
         if o[k] != nc.DEFAULTS[k]:
             labs.append("%s=%s" % (k, o[k]))
